@@ -646,6 +646,23 @@ def step {w : Nat} (st : St w) (line : String) : Res w :=
             | none => "err"
         (st, "L=" ++ side (v.left m.root) ++ ";R=" ++ side (v.right m.root), "*")
     | _, _, _ => bad st
+  | "par_mixed" :: r :: d :: rest =>
+    -- one thread counts the entries of the left side (read-only re-borrow), another bumps the right side
+    match st.get r, d.toInt?, parseVSteps w st.masked rest with
+    | some (m, e), some d, some steps =>
+      match runView m.root e steps View.root (some []) 0 with
+      | .error (mm, sm) => (st, mm, sm)
+      | .ok (v, regk) =>
+        let d : Val := if r == "S" then 0 else d
+        let cur := v.pfx m.root
+        let nl := match v.left m.root with | some vl => (vl.iter m.root).length | none => 0
+        let sr := match v.right m.root with | some vr => (Tree.iterAllS [vr.node m.root]).map (·.1) | none => []
+        let inView := regionEntries e regk
+        let xa := (regionEntries e ((specRegionStep e (some []) cur .left))).filter (fun x => inView.any (fun y => Spec.sameKey x.1 y.1))
+        let xb := (regionEntries e ((specRegionStep e (some []) cur .right))).filter (fun x => inView.any (fun y => Spec.sameKey x.1 y.1))
+        (st.set r { m with root := bumpSlots m.root sr d } (bumpKeys e (xb.map (·.1)) d),
+          "ok;left=" ++ toString nl, "ok;left=" ++ toString xa.length)
+    | _, _, _ => bad st
   | "par_churn" :: r :: n :: rest =>
     -- two threads set / remove the value at the root of their side `n` times and restore it: any
     -- interleaving leaves map and entry counter as they were (C14)
